@@ -88,14 +88,26 @@ struct OpsGmp : F {
 template <class E> std::string val(const E& e) { return S(e.get_value()); }
 template <class E, class I, class Q> struct ElemOps {
   static E mk(const std::string& s, bool sgn) { if constexpr (std::is_same<I, mpz_class>::value) return E(mpz_class(s)); else { if (sgn) return E((int)L(s)); return E((unsigned)UL(s)); } }
+  typedef typename std::conditional<std::is_same<I, mpz_class>::value, mpz_class, unsigned int>::type Raw;
+  static Raw raw(const std::string& s) { if constexpr (std::is_same<I, mpz_class>::value) return mpz_class(s); else return (unsigned)UL(s); }
+  static std::string rs(const Raw& x) { if constexpr (std::is_same<I, mpz_class>::value) return x.get_str(); else return S(x); }
   static std::string op(const Toks& t) {
     const std::string& o = t[0];
     if (o == "conv") return val(mk(t[1], true));
     if (o == "convu") return val(mk(t[1], false));
     E a = t.size() > 1 ? mk(t[1], false) : E(), b = t.size() > 2 ? mk(t[2], false) : E(), c = t.size() > 3 ? mk(t[3], false) : E();
-    if (o == "add") { E x = a; x += b; E r = a + b; return x == r ? val(r) : "inplace-mismatch"; }
-    if (o == "sub") { E x = a; x -= b; E r = a - b; return x == r ? val(r) : "inplace-mismatch"; }
-    if (o == "mul") { E x = a; x *= b; E r = a * b; return x == r ? val(r) : "inplace-mismatch"; }
+    // every binary operation also in its mixed forms: element (op) integer, element (op)= integer, integer (op) element (which returns a reduced integer),
+    // with the integers as given in the history (not reduced), and the mixed equality overloads
+    if (o == "add" || o == "sub" || o == "mul") {
+      Raw ra = raw(t[1]), rb = raw(t[2]); E x = a, y = a, r, z; Raw w;
+      if (o == "add") { x += b; r = a + b; y += rb; z = a + rb; w = ra + b; }
+      else if (o == "sub") { x -= b; r = a - b; y -= rb; z = a - rb; w = ra - b; }
+      else { x *= b; r = a * b; y *= rb; z = a * rb; w = ra * b; }
+      if (!(x == r)) return "inplace-mismatch";
+      if (!(y == r) || !(z == r)) return "mixed-mismatch element-op-integer " + val(y) + " " + val(z) + " vs " + val(r);
+      if (rs(w) != val(r)) return "mixed-mismatch integer-op-element " + rs(w) + " vs " + val(r);
+      if (!(r == w) || !(w == r)) return "mixed-equality-mismatch";
+      return val(r); }
     if (o == "mad") return val(a * b + c);
     if (o == "aam") return val((a + b) * c);
     if (o == "inv") return val(a.get_inverse());
